@@ -80,3 +80,18 @@ End Transfer.
 (* C03 on the translated step: never FIRST, MID with discount 1 or LAST with discount 0 (no truncation) -- any state, any action *)
 Lemma src_step_protocol (R C N T pen : Z) s acts : step_ok 1 false (snd (step R C T pen s acts)) = true.
 Proof. destruct (step_src R C N T pen s acts) as [_ E]. rewrite E. apply C03_step. Qed.
+
+(* C11 on the translated step: LAST from the limit on; an earlier LAST has another cause *)
+Lemma src_at_limit_last (R C N T pen : Z) s acts : T <= s_step_count s + 1 -> st (snd (step R C T pen s acts)) = LAST.
+Proof. intros H. destruct (step_src R C N T pen s acts) as [_ E]. rewrite E. apply C11_at_limit_last. exact H. Qed.
+Lemma src_last_cause (R C N T pen : Z) s acts :
+  st (snd (step R C T pen s acts)) = LAST -> T <= s_step_count s + 1 \/ other_cause (M.mkC R C N T pen) (conv s) acts = true.
+Proof. intros H. destruct (step_src R C N T pen s acts) as [_ E]. rewrite E in H. exact (C11_last_cause (M.mkC R C N T pen) (conv s) acts H). Qed.
+(* C08: the reward of the translated step is 4 quarters per tile cleaned by it minus the per-step penalty *)
+Lemma src_step_reward (R C N T pen : Z) s acts : M.Inv (M.mkC R C N T pen) (conv s) ->
+  reward (snd (step R C T pen s acts))
+  = [4 * (M.count_dirty (s_grid s) - M.count_dirty (s_grid (fst (step R C T pen s acts)))) - pen].
+Proof.
+  intros I. destruct (step_src R C N T pen s acts) as [E1 E2]. rewrite E2.
+  rewrite (step_reward (M.mkC R C N T pen) (conv s) acts I). rewrite <- E1. reflexivity.
+Qed.
